@@ -8,6 +8,7 @@ import NmfuModel.Lit
 import NmfuModel.SrcParse
 import NmfuModel.EquivF
 import NmfuModel.Ambig
+import NmfuModel.MacroLookup
 import NmfuModel.Generated.Flags
 open Nmfu
 
@@ -242,6 +243,25 @@ def cmdCli (args : List String) : String :=
     | none => s!"error clusterProduct={clusterOK}"
   | _ => "error bad-args"
 
+/-- `mlook <globals k:name,...> <stack frame;frame (outermost first), frame = k:name:v,...> <kind> <name>` -/
+def cmdMlook (args : List String) : String :=
+  match args with
+  | [gs, st, k, x] =>
+    let globals : List (Nat × String) := (splitOn gs ',').filterMap fun t =>
+      match splitOn t ':' with
+      | [a, b] => some (a.toNat!, b)
+      | _ => none
+    let frame (f : String) : MFrame := (splitOn f ',').filterMap fun t =>
+      match splitOn t ':' with
+      | [a, b, c] => some ((a.toNat!, b), c.toNat!)
+      | _ => none
+    let stack : List MFrame := if st == "-" then [] else (splitOn st ';').map frame
+    match lookStack globals stack k.toNat! x with
+    | .val v => s!"val {v}"
+    | .undefined => "undefined"
+    | .global n => s!"global {n}"
+  | _ => "error bad-args"
+
 def fmtOptList (o : Option (List Nat)) : String :=
   match o with
   | some l => "ok " ++ " ".intercalate (l.map toString)
@@ -338,6 +358,7 @@ def handle (line : String) : String :=
   | "lit" :: args => cmdLit args
   | "refine" :: args => cmdRefine args
   | "ambig" :: args => cmdAmbig args
+  | "mlook" :: args => cmdMlook args
   | "ping" :: _ => "pong"
   | _ => "error unknown-command"
 
